@@ -1618,7 +1618,7 @@ sec_tls(const rkey *k, const impl_t *m)
 	unsigned char pms[48];
 
 	if (!m->priv) { vf_stat("impl_unavailable", 1); goto done; }
-	if (nlen < 59) HARNESS_FAIL("tls-key-too-small");
+	if (nlen < 59) { vf_stat("tls_key_too_small_skipped", 1); goto done; }   /* a 48-byte premaster needs 59 bytes */
 	for (it = 0; it < nenc; it ++) {
 		skv sv;
 		vf_bytes(&R, pms, 48);
@@ -1979,7 +1979,7 @@ sec_keygen(const impl_t *m, unsigned size, uint32_t pubexp, int round)
 
 /* ------------------------------------------------------------------ */
 
-#define MAXKEYS 32
+#define MAXKEYS 48
 static rkey KEYS[MAXKEYS];
 static int nkeys;
 
@@ -2076,6 +2076,13 @@ main(int argc, char **argv)
 		int q;
 		vf_rng_init(&kr, 0x5eed, 4242);      /* the same keys for every seed: they are inputs, like the fixtures */
 		for (q = 0; q < 6 && nkeys < MAXKEYS; q ++) key_unbalanced(&KEYS[nkeys ++], shapes[q][0], shapes[q][1], q == 1 ? 3 : 65537, &kr);
+		{
+			/* modulus lengths at the PKCS#1 v1.5 signature capacity boundary of each hash function
+			   (DigestInfo + 11 bytes: 44 MD5... no OID-less case, 46 SHA-1, 58 SHA-224, 62 SHA-256, 78 SHA-384, 94 SHA-512)
+			   and one byte below it */
+			static const int nl[10] = { 45, 46, 57, 58, 61, 62, 77, 78, 93, 94 };
+			for (q = 0; q < 10 && nkeys < MAXKEYS; q ++) key_unbalanced(&KEYS[nkeys ++], 4 * nl[q], 4 * nl[q], 65537, &kr);
+		}
 	}
 	qsort(KEYS, (size_t)nkeys, sizeof KEYS[0], keycmp);
 
